@@ -3,13 +3,16 @@
 # For every item: confirm it independently (tools/seedverify.sh in the writer's worktree
 # <stage-dir>/<prop>), then run the quick check of its property against it in a scratch copy
 # (tools/seedrun.sh, lane-private directory /tmp/seedrun-<lane>). One result line per item in
-# <stage-dir>/out/<prop>/<letter>.result. Nothing here touches /repo's working tree.
+# <stage-dir>/out/<prop>/<letter>.result. Nothing here touches /repo's working tree. The checks run
+# from a snapshot of /verif's HEAD commit.
 lane=$1; stage=$2; shift 2
 for item in "$@"; do
   p=${item%%:*}; l=${item##*:}
   o=$stage/out/$p
   v=$(/verif/tools/seedverify.sh $stage/$p $o/$l.patch $o/${l}_demo.rs 2>&1 | tail -1)
-  r=$(SEEDRUN_DIR=/tmp/seedrun-$lane /verif/tools/seedrun.sh $p-$l $o/$l.patch quick $p 2>&1 | tail -1)
+  # run the COMMITTED checks (a half-edited working tree must not decide anything)
+  rm -rf /tmp/verif-snap-$lane; mkdir -p /tmp/verif-snap-$lane; git -C /verif archive HEAD | tar -x -C /tmp/verif-snap-$lane
+  r=$(VERIF_SRC=/tmp/verif-snap-$lane SEEDRUN_DIR=/tmp/seedrun-$lane /verif/tools/seedrun.sh $p-$l $o/$l.patch quick $p 2>&1 | tail -1)
   sig=$(grep -h "^  sig:" /tmp/seedrun-$lane/out/$p-$l.$p.log 2>/dev/null | sort | uniq -c | sort -rn | head -3 | tr '\n' ';')
   echo "$p-$l | $v | $r | $sig" | tee $o/$l.result
 done
